@@ -388,6 +388,19 @@ func randFmtAl(rng *rand.Rand, tier string, strictNames bool) fmtAl {
 				// names spelling a word some lexer knows
 				nm = []byte([]string{"clustal", "CLUSTAL", "clustalw", "begin", "end", "matrix", "format", "dimensions", "MUSCLE", "STOCKHOLM"}[rng.Intn(10)])
 			}
+			if rng.Intn(25) == 0 {
+				// names that only start or end with such a word: ordinary names for every format
+				w := []string{"clustal", "CLUSTAL", "Clustalw", "begin", "end", "matrix", "format", "dimensions", "ntax", "data", "MUSCLE", "STOCKHOLM"}[rng.Intn(12)]
+				x := string(nameChars[rng.Intn(22)]) + string(nameChars[rng.Intn(22)])
+				if rng.Intn(2) == 0 {
+					nm = []byte(w + x)
+				} else {
+					nm = []byte(x + w)
+				}
+				if strictNames && len(nm) > 10 {
+					nm = nm[:10]
+				}
+			}
 			if !used[string(nm)] {
 				break
 			}
@@ -708,6 +721,16 @@ func validFiles(rng *rand.Rand) map[string][]string {
 	out["phylipstrict"] = append(out["phylipstrict"], "2 4\n\xc3\xa9aaaaaaaaaACGT\nbbbbbbbbbbAC-T\n")
 	out["phylip"] = append(out["phylip"], "99999999999999 4\na  ACGT\nb  AC-T\n")
 	out["nexus"] = append(out["nexus"], "#NEXUS\nBEGIN DATA;\nMATRIX\na\nb\n;\nEND;\n")
+	// one name twice with different residues (renamed, or dropped, by the duplicate-name policy; never kept twice)
+	out["fasta"] = append(out["fasta"], ">a\nACGT\n>a\nAC-T\n>b\nGGGG\n>a\nTTTT\n")
+	out["phylip"] = append(out["phylip"], "4 4\na  ACGT\na  AC-T\nb  GGGG\na  TTTT\n")
+	out["phylipstrict"] = append(out["phylipstrict"], "3 4\naaaaaaaaaaACGT\naaaaaaaaaaAC-T\nbbbbbbbbbbGGGG\n")
+	// a TAXA block that agrees with the matrix next to a DATA block declaring another NTAX / NCHAR
+	out["nexus"] = append(out["nexus"],
+		"#NEXUS\nBEGIN TAXA;\n DIMENSIONS NTAX=2;\n TAXLABELS a b;\nEND;\nBEGIN DATA;\n DIMENSIONS NTAX=3 NCHAR=4;\n FORMAT DATATYPE=DNA;\n MATRIX\n a ACGT\n b AC-T\n ;\nEND;\n",
+		"#NEXUS\nBEGIN TAXA;\n DIMENSIONS NTAX=3;\n TAXLABELS a b c;\nEND;\nBEGIN DATA;\n DIMENSIONS NTAX=2 NCHAR=4;\n FORMAT DATATYPE=DNA;\n MATRIX\n a ACGT\n b AC-T\n c AC-T\n ;\nEND;\n")
+	// an empty command before DIMENSIONS (the declared NTAX still binds)
+	out["nexus"] = append(out["nexus"], "#NEXUS\nBEGIN DATA;\n;\n DIMENSIONS NTAX=3 NCHAR=4;\n FORMAT DATATYPE=DNA;\n MATRIX\n a ACGT\n b AC-T\n ;\nEND;\n")
 	out["partition"] = []string{"DNA, p1 = 1-4\nDNA, p2 = 5-12\n", "M1, c1 = 1-12/3\nM1, c2 = 2-12/3\nM2, c3 = 3-12/3\n", "WAG, g1 = 1-3, 7-9\nLG, g2 = 4-6,10-12\n", "DNA,p=1-6/2,7-12\nDNA,q=2-6/2\n"}
 	return out
 }
@@ -841,7 +864,8 @@ func parseFamily(env *Env) error {
 				rng.Shuffle(len(muts), func(i, j int) { muts[i], muts[j] = muts[j], muts[i] })
 				muts = muts[:env.N]
 			}
-			for _, m := range muts {
+			muts = append(muts, text, text, text) // the file as it is, whatever was sampled: once per duplicate-name policy
+			for mi, m := range muts {
 				c := parseCase{Bytes: s2i(m), Pol: rng.Intn(3), Alpha: []int{align.BOTH, align.BOTH, align.NUCLEOTIDS, align.AMINOACIDS}[rng.Intn(4)], Plen: 12}
 				switch f {
 				case "phylipstrict":
@@ -852,6 +876,9 @@ func parseFamily(env *Env) error {
 					c.Fmt, c.Strict = "phylip", rng.Intn(4) == 0
 				default:
 					c.Fmt = f
+				}
+				if mi >= len(muts)-3 {
+					c.Pol = len(muts) - 1 - mi
 				}
 				run(f, c)
 			}
